@@ -31,7 +31,7 @@ class StringNode(BaseNode, SelectNode):
     def set_value(self, value=None):
         """ Set value using value_raw or arbitrary value
         """
-        if value is None and self.value_raw:
+        if value is None and self.value_raw is not None:
             self.value = StringType(self.cast_value())
         elif value:
             self.value = StringType(value)
